@@ -36,3 +36,6 @@ mod view;
 
 pub use parser::{ParserResult, VHDLParser};
 pub use tokens::*;
+/// Verification hook H3 (only with `--cfg vhdl_ls_rust_hdl_verif`)
+#[cfg(vhdl_ls_rust_hdl_verif)]
+pub use recover::{verif_expect_semicolon_or_last, verif_or_recover_until};
